@@ -164,6 +164,22 @@ class EffectDomain(DefaultDomain):
             if ok:
                 hit = k in dict(right[1])
                 return "T" if hit == isinstance(op, ast.In) else "F"
+        if isinstance(op, (ast.In, ast.NotIn)) and isinstance(right, tuple) and right[:1] == ("tuple",):
+            # membership in an exact sequence: decided when every element is known to be (un)equal to the candidate
+            verdicts = []
+            for el in right[1:]:
+                if el == left and left != TOP:
+                    verdicts.append("T")
+                elif left == NONE and self.is_none(el) == "F":
+                    verdicts.append("F")
+                elif self._py(left)[0] and self._py(el)[0]:
+                    verdicts.append("T" if self._py(left)[1] == self._py(el)[1] else "F")
+                else:
+                    verdicts.append("?")
+            if "T" in verdicts:
+                return "T" if isinstance(op, ast.In) else "F"
+            if all(v == "F" for v in verdicts):
+                return "F" if isinstance(op, ast.In) else "T"
         okl, pl = self._py(left)
         okr, pr = self._py(right)
         if okl and okr:
@@ -270,6 +286,8 @@ class EffectDomain(DefaultDomain):
         return st
 
     def iter_exact(self, value):
+        if isinstance(value, tuple) and len(value) == 2 and value[0] == "iter" and isinstance(value[1], tuple) and value[1][:1] == ("tuple",):
+            return list(value[1][1:])   # a one-shot iterator over a known sequence
         if isinstance(value, tuple) and value[:1] == ("kwitems",):
             return [("tuple", self._dkey_abs(k), v) for k, v in value[1]]
         if isinstance(value, tuple) and value[:1] == ("kwdict",):
@@ -387,6 +405,17 @@ class EffectDomain(DefaultDomain):
         return None
 
     def load_attr(self, chain, st, fr):
+        if chain and chain[0] == "<yield>" and getattr(self, "collect_yields", True):
+            # a generator's yields are collected in order (per frame depth); the yield expression evaluates to None
+            key = f"gen.{fr.depth}"
+            items = (chain[2],)
+            if isinstance(chain[1], ast.YieldFrom):
+                # yield from <exact sequence>: its elements, one by one
+                if isinstance(chain[2], tuple) and chain[2][:1] in (("tuple",), ("lazyseq",)):
+                    items = tuple(chain[2][1:])
+                else:
+                    items = (("*", chain[2]),)
+            return [val(NONE, st.set(key, st.get(key, ()) + items))]
         if all(isinstance(c, str) for c in chain):
             d = ".".join(chain)
             if len(chain) == 2 and chain[1] in ("__traceback__", "__class__"):
@@ -439,6 +468,8 @@ class EffectDomain(DefaultDomain):
         """("bound", id, name) when the callee expression denotes a method of a wrapped object."""
         if isinstance(func, ast.Name):
             v = st.get(fr.local(func.id), None)
+            if v is None and not st.has(fr.local(func.id)):
+                v = self.attrs.get(func.id)   # a module-level name the environment binds to a method of a wrapped object
             return v if isinstance(v, tuple) and v[:1] == ("bound",) else None
         if isinstance(func, ast.Attribute) and not any(isinstance(n, ast.Call) for n in ast.walk(func.value)):
             for r in interp.eval(func.value, st, fr):
@@ -750,6 +781,22 @@ class EffectDomain(DefaultDomain):
                     known = False
             if known and out:
                 return out
+        if d == "isinstance" and len(call.args) == 2 and not call.keywords:
+            types_ = {"str": str, "bytes": bytes, "int": int, "bool": bool, "float": float, "tuple": tuple, "list": tuple, "dict": dict}
+            names_ = [dotted(t) for t in (call.args[1].elts if isinstance(call.args[1], ast.Tuple) else [call.args[1]])]
+            if all(n_ in types_ for n_ in names_):
+                out = []
+                known = True
+                for r in interp.eval(call.args[0], st, fr):
+                    ok_, p_ = self._py(r.value) if r.kind == "val" else (False, None)
+                    if r.kind == "exc":
+                        out.append(r)
+                    elif ok_ and p_ is not None and not isinstance(p_, tuple):
+                        out.append(val(TRUE if any(isinstance(p_, types_[n_]) and not (types_[n_] is int and isinstance(p_, bool) and "bool" not in names_ and False) for n_ in names_) else FALSE, r.state))
+                    else:
+                        known = False
+                if known and out:
+                    return out
         if d == "bool" and len(call.args) == 1 and not call.keywords:
             out = []
             for r in interp.eval(call.args[0], st, fr):
@@ -762,6 +809,11 @@ class EffectDomain(DefaultDomain):
                     out.append(r)
                 elif isinstance(r.value, tuple) and r.value[:1] in (("tuple",), ("lazyseq",)):
                     els = r.value[1:]
+                    if d == "sorted" and all(self._py(x)[0] for x in els):
+                        try:
+                            els = tuple(self._abs(v) for v in sorted(self._py(x)[1] for x in els))
+                        except TypeError:
+                            pass
                     out.append(val(("tuple",) + (tuple(reversed(els)) if d == "reversed" else tuple(els)), r.state))
                 else:
                     out.append(val(TOP, r.state))
@@ -829,6 +881,16 @@ class EffectDomain(DefaultDomain):
                     out.append(exc(e, logged(e[1] if isinstance(e, tuple) and len(e) > 1 and isinstance(e[1], str) else "raised")))
             return out
         if self.inline:
+            callee = interp.resolve_callee(call, st, fr, self.classes)
+            if callee is not None and is_generator(callee[0]) and getattr(self, "collect_yields", True):
+                # calling a generator function: its body runs now (eagerly) and the call evaluates to the sequence of its yields
+                key = f"gen.{fr.depth + 1}"
+                out = []
+                for r in interp.auto_inline(call, st.set(key, ()), fr, self.classes):
+                    ys = r.state.get(key, ())
+                    s2 = r.state.set(key, st.get(key, ())) if st.has(key) else State(frozenset((k, v) for k, v in r.state.items if k != key), r.state.log)
+                    out.append(exc(r.value, s2) if r.kind == "exc" else val(("tuple",) + tuple(ys), s2))
+                return out
             hit = interp.auto_inline(call, st, fr, self.classes)
             if hit is not None:
                 return hit
@@ -856,6 +918,27 @@ class EffectDomain(DefaultDomain):
             name = norm(stmt.exc.func if isinstance(stmt.exc, ast.Call) else stmt.exc).split(".")[-1]
             return ("exc", name)
         return ("exc", "?")
+
+
+_IS_GEN = {}
+
+
+def is_generator(func):
+    got = _IS_GEN.get(id(func))
+    if got is None:
+        found = False
+        if isinstance(func, FUNC_TYPES):
+            stack = list(func.body)
+            while stack:
+                n = stack.pop()
+                if isinstance(n, FUNC_TYPES + (ast.Lambda, ast.ClassDef)):
+                    continue
+                if isinstance(n, (ast.Yield, ast.YieldFrom)):
+                    found = True
+                    break
+                stack.extend(ast.iter_child_nodes(n))
+        got = _IS_GEN[id(func)] = (func, found)
+    return got[1]
 
 
 def exc_info_of(e):
